@@ -319,7 +319,11 @@ func (w *World) runTCaller(ci int) {
 func (w *World) tStreamOp(t *rpc.Transport, op *Op) {
 	rec := w.Streams[op.Stream]
 	if op.Kind == "sopen" {
-		st, err := t.NewStream(addrOf(op.Addr), w.streamMethod(op.Stream))
+		method := w.streamMethod(op.Stream)
+		if op.Bad == "method" {
+			method = "NoSuchStream.Run"
+		}
+		st, err := t.NewStream(addrOf(op.Addr), method)
 		if err != nil {
 			rec.OpenErr = err.Error()
 			return
@@ -682,6 +686,17 @@ func genC15(r *simrt.Rand, tier string, idx uint64) *Plan {
 		p.Streams = append(p.Streams, sp)
 		p.Conns = []ConnCfg{{Server: a}} // stream services are registered on the server of Conns[sp.Conn]
 		p.Clients = append(p.Clients, ClientPlan{Ops: ops})
+	}
+	// a stream open that the server answers with an error (unknown method): the connection is
+	// healthy and unused afterwards
+	if r.Chance(1, 3) {
+		k := len(p.Streams)
+		a := r.Intn(ns)
+		p.Streams = append(p.Streams, StreamPlan{})
+		if len(p.Conns) == 0 {
+			p.Conns = []ConnCfg{{Server: a}}
+		}
+		p.Clients = append(p.Clients, ClientPlan{Ops: []Op{{Kind: "sleep", N: 1000 * r.Intn(2000)}, {Kind: "sopen", Stream: k, Addr: a, Bad: "method"}}})
 	}
 	// short calls and CloseIdleConnections at PRNG instants
 	nc := 1 + r.Intn(3)
